@@ -122,6 +122,7 @@ class C03(Spec):
         import c03_e2e
         goals, nh, nops = c03_e2e.run(ctx)
         cnh, cnops = c03_e2e.run_cpp_callbacks(ctx)
+        c03_e2e.run_cpp_owned_slices(ctx)
         fails = run_shards(self.prop, self.header, goals) if goals else []
         if fails and not ctx.violations:
             ctx.violation("e2e:corr", {"broken": "end-to-end lifecycle history does not match Own/Model.v: " + goals[fails[0]][:400]}, False)
